@@ -459,7 +459,7 @@ _PATCHED = []
 
 def install():
     """rebind math/np inside the spatialmath modules (this process only)"""
-    if _PATCHED:
+    if _PATCHED or os.environ.get('SMV_NOPATCH'):
         return
     import spatialmath
     import spatialmath.base.argcheck as ac
